@@ -28,8 +28,35 @@ pub const EXCLUDED: [(&str, &str); 9] = [
     ("typeof", "spark: returns the type name"),
 ];
 
+/// Functions whose *result size* is an argument value (series generators): the extreme values of the
+/// numeric / temporal menus are dropped for them (a 2^63-element series is not a representation question).
+pub const SIZE_BY_ARGUMENT: [&str; 2] = ["generate_series", "range"];
+
 pub fn excluded(name: &str) -> Option<&'static str> {
     EXCLUDED.iter().find(|(n, _)| *n == name).map(|(_, why)| *why)
+}
+
+thread_local! {
+    static NATIVE_PANICKED: std::cell::Cell<bool> = const { std::cell::Cell::new(false) };
+}
+pub static NATIVE_PANICS_SKIPPED: std::sync::atomic::AtomicU64 = std::sync::atomic::AtomicU64::new(0);
+
+/// Evaluate the native side of a native / foreign pair.  A panic inside a function called through the FFI
+/// cannot unwind (`extern "C"`) and would abort the process, so when the native side panics the foreign
+/// side of the pair is not called (see `catch_foreign`).
+pub fn catch_native<T>(f: impl FnOnce() -> T) -> Result<T, String> {
+    let r = mc_core::catch(f);
+    NATIVE_PANICKED.with(|c| c.set(r.is_err()));
+    r
+}
+
+/// The foreign side of the pair started by the last `catch_native` on this thread.
+pub fn catch_foreign<T>(f: impl FnOnce() -> T) -> Result<T, String> {
+    if NATIVE_PANICKED.with(|c| c.replace(false)) {
+        NATIVE_PANICS_SKIPPED.fetch_add(1, std::sync::atomic::Ordering::Relaxed);
+        return Err("panic: (not called: the native side panicked)".into());
+    }
+    mc_core::catch(f)
 }
 
 pub fn cfg() -> Arc<ConfigOptions> {
@@ -386,8 +413,58 @@ pub fn plan(udf: &ScalarUDF, types: &[DataType], cfg: &Arc<ConfigOptions>) -> Op
             }
         }
     }
-    let menus: Vec<ArrayRef> = types.iter().enumerate().map(|(i, t)| menu::menu_array(t, &hints[i])).collect::<Option<Vec<_>>>()?;
+    let mut menus: Vec<ArrayRef> = types.iter().enumerate().map(|(i, t)| menu::menu_array(t, &hints[i])).collect::<Option<Vec<_>>>()?;
+    if SIZE_BY_ARGUMENT.contains(&udf.name()) {
+        // the result size grows with the magnitude of the arguments: keep NULL, zero and the small values only
+        for (i, m) in menus.iter_mut().enumerate() {
+            if !menu::is_string(&types[i]) && m.len() > 5 {
+                *m = m.slice(0, 5);
+            }
+        }
+    }
     // translate defaults into the final menus (hint 0 is the default when the default came from the pool)
     let defaults: Vec<usize> = (0..n).map(|i| if defaults[i] >= core && menu::is_string(&types[i]) { core } else { defaults[i].min(menus[i].len() - 1) }).collect();
     Some(Plan { types: types.to_vec(), menus, defaults, probe_evals: evals })
 }
+
+// ------------------------------------------------------------------------------------------------
+// A function that sizes an allocation by an argument value (repeat / pad / range … with i64::MAX)
+// would abort the whole process (`handle_alloc_error`), which no check can report.  This allocator
+// refuses requests above 4 GiB by panicking instead, so that the call ends as an ordinary "panic"
+// outcome (compared across representations like an error) and the exploration goes on.
+pub struct GuardAlloc;
+
+pub static REFUSED_ALLOCATIONS: std::sync::atomic::AtomicU64 = std::sync::atomic::AtomicU64::new(0);
+const ALLOC_LIMIT: usize = 4 << 30;
+
+fn refuse(size: usize) -> ! {
+    REFUSED_ALLOCATIONS.fetch_add(1, std::sync::atomic::Ordering::Relaxed);
+    panic!("allocation of {size} bytes refused by the harness allocator");
+}
+
+unsafe impl std::alloc::GlobalAlloc for GuardAlloc {
+    unsafe fn alloc(&self, l: std::alloc::Layout) -> *mut u8 {
+        if l.size() > ALLOC_LIMIT {
+            refuse(l.size());
+        }
+        unsafe { std::alloc::System.alloc(l) }
+    }
+    unsafe fn dealloc(&self, p: *mut u8, l: std::alloc::Layout) {
+        unsafe { std::alloc::System.dealloc(p, l) }
+    }
+    unsafe fn alloc_zeroed(&self, l: std::alloc::Layout) -> *mut u8 {
+        if l.size() > ALLOC_LIMIT {
+            refuse(l.size());
+        }
+        unsafe { std::alloc::System.alloc_zeroed(l) }
+    }
+    unsafe fn realloc(&self, p: *mut u8, l: std::alloc::Layout, new_size: usize) -> *mut u8 {
+        if new_size > ALLOC_LIMIT {
+            refuse(new_size);
+        }
+        unsafe { std::alloc::System.realloc(p, l, new_size) }
+    }
+}
+
+#[global_allocator]
+static GLOBAL: GuardAlloc = GuardAlloc;
